@@ -45,6 +45,9 @@ type checkDef struct {
 
 var registry = map[string]*checkDef{}
 
+// internalCmds: helper child processes (names start with "_")
+var internalCmds = map[string]func(args []string) int{}
+
 func register(id string, d *checkDef) { registry[id] = d }
 
 func one(bool) int { return 1 }
@@ -60,6 +63,9 @@ func main() {
 		os.Exit(3)
 	}
 	id := os.Args[1]
+	if f, ok := internalCmds[id]; ok {
+		os.Exit(f(os.Args[2:]))
+	}
 	fs := flag.NewFlagSet(id, flag.ExitOnError)
 	tier := fs.String("tier", envOr("VERIF_TIER", "quick"), "quick|thorough")
 	replay := fs.String("replay", "", "replay file")
@@ -172,7 +178,7 @@ func main() {
 			if timedOut {
 				keep := filepath.Join(monitor.Root(), "replays", fmt.Sprintf("%s-watchdog-b%d.log", id, b))
 				_ = os.MkdirAll(filepath.Dir(keep), 0o755)
-				_ = os.WriteFile(keep, tailBytes(logb, 200000), 0o644)
+				_ = os.WriteFile(keep, headTail(logb, 400000), 0o644)
 				r.Inconclusive(fmt.Sprintf("batch %d: watchdog (%v) fired; goroutine dump in %s; last case: %s", b, to, keep, lastCase(logb)))
 				return
 			}
@@ -245,6 +251,16 @@ func envOr(k, d string) string {
 		return v
 	}
 	return d
+}
+
+// headTail keeps the beginning (case log, first goroutines incl. main) and the end of a long log.
+func headTail(b []byte, n int) []byte {
+	if len(b) <= 2*n {
+		return b
+	}
+	out := append([]byte{}, b[:n]...)
+	out = append(out, []byte("\n...[cut]...\n")...)
+	return append(out, b[len(b)-n:]...)
 }
 
 func tailBytes(b []byte, n int) []byte {
